@@ -796,7 +796,7 @@ def plan(prop, tier):
                 add(module=m, algo=a, backend='none', N=4 if q else 5, raises=True)
                 if prop in ('C01', 'C05', 'C15'):
                     for b in ('none', 'cached_dict'):
-                        add(module=m, algo=a, backend=b, N=2 if q else 3, recursive=2, scenario='recursive')
+                        add(module=m, algo=a, backend=b, N=2 if (q or a == 'rr') else 3, recursive=2, scenario='recursive')
 
     if prop in ('C01', 'C02', 'C15'):
         add_scenarios()
